@@ -367,6 +367,14 @@ Proof.
   - apply in_map_iff in He. destruct He as (j & <- & _). discriminate.
 Qed.
 
+Lemma lit_visit_errs_position : forall ti pi ins e,
+  In e (lit_visit_errs ti pi ins) -> snd e <> CNone.
+Proof.
+  intros ti pi ins e He. unfold lit_visit_errs in He. apply in_flat_map in He.
+  destruct He as ([k x] & _ & He). cbn [fst snd] in He. destruct x as [| |s j]; try destruct He.
+  apply repeat_spec in He. subst e. discriminate.
+Qed.
+
 Lemma concat_from_in : forall f l i e, In e (concat_from f i l) -> exists j x, In x l /\ In e (f j x).
 Proof.
   intros f l. induction l as [|y r IH]; intros i e H; [destruct H|].
@@ -379,10 +387,13 @@ Lemma stmt_visit_errs_position : forall ti s pi e,
   In e (stmt_visit_errs ti pi s) -> snd e <> CNone.
 Proof.
   intros ti s. induction s using stmt_ind'; intros pi er He; rewrite stmt_visit_errs_unfold in He.
-  - eapply outs_visit_errs_position; eassumption.
-  - eapply outs_visit_errs_position; eassumption.
+  - apply in_app_or in He. destruct He as [He|He];
+      [eapply lit_visit_errs_position | eapply outs_visit_errs_position]; eassumption.
+  - apply in_app_or in He. destruct He as [He|He];
+      [eapply lit_visit_errs_position | eapply outs_visit_errs_position]; eassumption.
   - apply in_flat_map in He. destruct He as ([j c] & Hin & He). cbn [fst snd] in He.
-    eapply outs_visit_errs_position; exact He.
+    apply in_app_or in He. destruct He as [He|He];
+      [eapply lit_visit_errs_position | eapply outs_visit_errs_position]; exact He.
   - destruct (concat_from_in _ _ _ _ He) as (j & x & Hx & Hex). rewrite Forall_forall in H.
     eapply H; [exact Hx | exact Hex].
   - destruct (concat_from_in _ _ _ _ He) as (j & x & Hx & Hex). rewrite Forall_forall in H.
